@@ -326,6 +326,28 @@ func ruleC18RegionSuffixIsTheConfiguredRegion(c *Ctx) {
 				ap = trimAddr(accessPath(resolve(v)))
 			}
 			fromRegion := strings.HasSuffix(ap, ".Region") || strings.HasSuffix(ap, ".Region()")
+			// a helper of the package whose every return is such a value
+			if hc, isCall := resolve(v).(*ssa.Call); isCall && !fromRegion {
+				if h := staticCallee(hc); h != nil && h.Blocks != nil && h.Pkg == f.Pkg && h.Signature.Results().Len() == 1 {
+					all := true
+					for _, r := range returnsOf(h) {
+						rv := returnedValue(r, 0)
+						if cv2, isC2 := resolve(rv).(*ssa.Call); isC2 {
+							if g2 := staticCallee(cv2); g2 != nil && (g2.Name() == "StringValue" || g2.Name() == "ToString") && len(cv2.Call.Args) == 1 {
+								rv = cv2.Call.Args[0]
+							}
+						}
+						rp := trimAddr(accessPath(rv))
+						if rp == "" {
+							rp = trimAddr(accessPath(resolve(rv)))
+						}
+						if !strings.HasSuffix(rp, ".Region") {
+							all = false
+						}
+					}
+					fromRegion = all && len(returnsOf(h)) > 0
+				}
+			}
 			if k, isC := constOf(resolve(v)); isC && k.Kind() == constant.String && constant.StringVal(k) == "" {
 				fromRegion = true // clearing the suffix
 			}
